@@ -47,8 +47,9 @@ Init == /\ op \in {"W", "Y"}
         /\ lpc = [p \in Procs |-> "idle"] /\ lop \in [Procs -> {"W", "Y"}]
         /\ holder = [m \in {1, 2} |-> "none"] /\ inside = 0 /\ order = <<>>
         \* which of the two handles of a doubly locked sink a goroutine holds (the replay assigns handles itself, so
-        \* generator runs need not enumerate them)
-        /\ handle \in IF Emit THEN {[p \in Procs |-> 1]} ELSE [Procs -> {1, 2}]
+        \* generator runs need not enumerate them,
+        \* and they are only enumerated in the lock-only configurations, MaxSinks = 0)
+        /\ handle \in IF Emit \/ MaxSinks > 0 THEN {[p \in Procs |-> 1]} ELSE [Procs -> {1, 2}]
 
 \* ---- multiWriteSyncer: one loop iteration
 MultiStep ==
